@@ -105,8 +105,9 @@ class DomainPredicates:
     Also computes domain predicates, min/max elements and chains.
     """
 
-    def __init__(self, unique_names: UniqueNames, prg: Iterable[AST]):
+    def __init__(self, unique_names: UniqueNames, prg: Iterable[AST], input_predicates: Iterable[Predicate] = ()):
         self.unique_names = unique_names
+        self.input_predicates = set(input_predicates)
         self._not_static: set[Predicate] = set()  # set of predicates that is not already a domain predicate
 
         prg: list[AST] = list(prg)  # type: ignore
@@ -134,6 +135,13 @@ class DomainPredicates:
                         assert cond.ast_type == ASTType.ConditionalLiteral
                         for lit in literal_predicate(cond.literal, SIGNS):
                             self._not_static.add(lit.pred)
+
+        ### the rules of an input predicate do not describe its domain, the instance may add facts
+        for stm in prg:
+            for spred in headderivable_predicates(stm):
+                if spred.pred in self.input_predicates:
+                    self._not_static.add(spred.pred)
+                    self._too_complex.add(spred.pred)
 
         graph = _create_graph_from_prg(prg, SIGNS)
         cycle_free_pdg = graph.copy()
